@@ -206,6 +206,67 @@ theorem maybe_comment_transparent (L : LexCfg) (isSpace : Char → Bool) (other 
     lexLoop L isSpace other (maybeComment isSpace sql comments ++ ' ' :: b) = lexLoop L isSpace other (sql ++ ' ' :: b) := by
   rw [boundary_maybeComment L isSpace other hd hs0 hs1 hext comments sql ts ha b, ha b]
 
+/-- Reading back a generated block comment gives one comment whose TEXT is exactly what the generator wrote between
+    `/*` and `*/` (`self._comments.append(self._text[2:-1])`), with and without nested-comment support, whatever the
+    text contains — `--`, `#`, `//`, `{#` openers included (the block scanner does not look at them). -/
+theorem comment_read_back (isSpace : Char → Bool) (hs1 : isSpace '/' = false) (hs2 : isSpace '*' = false)
+    (nested : Bool) (c rest : List Char) (hc : c ≠ []) :
+    readComment nested (sanitizeComment isSpace c ++ '*' :: '/' :: rest) = some (sanitizeComment isSpace c, rest) :=
+  readComment_generated isSpace hs1 hs2 nested c rest hc
+
+example : readComment true (sanitizeComment (· == ' ') "-- # // {# */".toList ++ '*' :: '/' :: " x".toList)
+    = some (sanitizeComment (· == ' ') "-- # // {# */".toList, " x".toList) :=
+  comment_read_back _ (by decide) (by decide) true _ _ (by decide)
+
+/-- Raw strings (r'…', one-character delimiter) as the TOKENIZER reads them: a value that contains neither the delimiter
+    nor — where STRING_ESCAPES_ALLOWED_IN_RAW_STRINGS — an escape character is read back verbatim.  (The generator never
+    writes raw syntax: `rawstring_sql` writes a plain literal, see `raw_roundtrip`.) -/
+theorem raw_literal_read (c : Cfg) (rawEsc : Bool) (h : rawReadOk c rawEsc = true) (v rest : List Char)
+    (hr : rest.head? ≠ some c.q) (hv : ∀ x ∈ v, x ≠ c.q ∧ (rawEsc = true → c.isEsc x = false)) :
+    extractG c [c.q] true rawEsc (v ++ c.q :: rest) = .ok v rest := by
+  simp only [rawReadOk, Bool.and_eq_true, Bool.or_eq_true] at h
+  refine extractG_raw c rawEsc v rest ⟨by simpa using h.1, hr, ?_⟩ hv
+  intro hre
+  rcases h.2 with (h2 | h2) | h2
+  · simp [hre] at h2
+  · exact Or.inl h2
+  · exact Or.inr (by simpa using h2)
+
+example : extractG exBigquery ['\''] true true ("a\"b".toList ++ '\'' :: [' ']) = .ok "a\"b".toList [' '] :=
+  raw_literal_read exBigquery true (by decide +kernel) _ _ (by decide) (by decide)
+
+/-- the premises are needed: with an escape character in the value (escapes allowed in raw strings) or the delimiter in
+    the value, the raw scan ends elsewhere -/
+theorem raw_read_needs_premise :
+    extractG exBigquery ['\''] true true ("a\\".toList ++ ['\'']) = .err
+    ∧ extractG exBigquery ['\''] true true ("a'b".toList ++ ['\'']) = .ok ['a'] ['b', '\''] := by
+  decide +kernel
+
+/-- A foreign delimiter inside a quoted identifier (another identifier's closing character, a string quote) is preserved:
+    instance of `identifier_roundtrip`, spelled out because `_scan_identifier` must build its escape set from THIS
+    identifier's own closing delimiter only (`generated_identifier_scan_shape`). -/
+theorem foreign_delimiter_preserved (c : Cfg) (hsup : c.supports = false) (h : wf c = true) (hf : wfFast c = true)
+    (pre post rest : List Char) (x : Char) (hr : rest.head? ≠ some c.q) :
+    extract c (identifierSql c (pre ++ x :: post) ++ c.q :: rest) = .ok (pre ++ x :: post) rest :=
+  identifier_roundtrip c hsup h hf _ rest hr
+
+example : extract exIdent (identifierSql exIdent "a`]b".toList ++ ['"']) = .ok "a`]b".toList [] :=
+  foreign_delimiter_preserved exIdent rfl (by decide +kernel) (by decide +kernel) "a".toList "]b".toList [] '`' (by decide)
+
+open SqlglotModel.Generated.C04 in
+/-- ast facts about the identifier scanner and live facts about its escape set, per dialect and tokenizer core:
+    `_scan_identifier` calls `_extract_string(identifier_end, escapes=self.identifier_escapes | {identifier_end})`, the
+    core stores the set it is given, the tokenizer passes `_IDENTIFIER_ESCAPES = set(IDENTIFIER_ESCAPES)`, and the live
+    `identifier_escapes` of every core equals the IDENTIFIER_ESCAPES its tokenizer class declares (no closing delimiter
+    of another identifier sneaks in); every raw-string start with a one-character delimiter satisfies `rawReadOk`. -/
+theorem generated_identifier_scan_shape :
+    scanIdentifierShape = ["_extract_string(identifier_end, escapes=self.identifier_escapes | {identifier_end})",
+      "cls._IDENTIFIER_ESCAPES = set(cls.IDENTIFIER_ESCAPES)", "identifier_escapes=self._IDENTIFIER_ESCAPES",
+      "self.identifier_escapes = identifier_escapes"]
+    ∧ (!identifierEscapesLive.isEmpty && identifierEscapesLive.all fun t => t.2.1 == t.2.2) = true
+    ∧ (dialects.all fun d => d.lex.all lexRawOk) = true := by
+  decide +kernel
+
 /-! ### raw and byte strings -/
 
 /-- `rawstring_sql` (backslashes doubled when the backslash is a string escape, then `escape_str(escape_backslash=False)`)
